@@ -2,6 +2,7 @@
 Require Import V.Lib.Base V.Lib.Calls V.Lib.Dec V.C09.Spec V.Gen.Consts V.Gen.Consts_C07 V.C07.Model V.C07.Spec.
 Require Import ZifyBool.
 Local Open Scope Z_scope.
+Ltac Zify.zify_post_hook ::= Z.div_mod_to_equations.
 
 (* the rest of the input does not continue a digit run *)
 Definition delim (r : list Z) : Prop := match r with [] => True | c :: _ => is_digit c = false end.
@@ -63,9 +64,12 @@ Qed.
 (* ---- the digit loop ---- *)
 Lemma a_digits_bad : forall l res, exists v, a_digits l res false = (v, false, snd (a_digits l res false)).
 Proof.
-  induction l as [|c l IH]; intros res; cbn; [eauto|].
-  destruct (is_digit c); [|cbn; eauto]. cbn. apply IH.
+  induction l as [|c l IH]; intros res; cbn [a_digits]; [cbn [snd]; eauto|].
+  destruct (is_digit c); [|cbn [snd]; eauto]. cbn [andb]. apply IH.
 Qed.
+
+Lemma a_digits_nodigit r acc g : delim r -> a_digits r acc g = (acc, g, r).
+Proof. destruct r as [|c r]; intros H; cbn [a_digits]; [reflexivity|]. cbn in H. rewrite H. reflexivity. Qed.
 
 Lemma a_digits_spec : forall ds r acc, all_digits ds -> delim r -> 0 <= acc <= INT64_MAX ->
   exists v g, a_digits (ds ++ r) acc true = (v, g, r) /\
@@ -73,22 +77,21 @@ Lemma a_digits_spec : forall ds r acc, all_digits ds -> delim r -> 0 <= acc <= I
               (INT64_MAX < value_acc acc ds -> g = false).
 Proof.
   induction ds as [|d ds IH]; intros r acc Hd Hr Hacc.
-  - cbn. exists acc, true. destruct r as [|c r]; cbn.
-    + repeat split; lia.
-    + cbn in Hr. rewrite Hr. repeat split; lia.
+  - cbn [app value_acc]. exists acc, true. rewrite (a_digits_nodigit r acc true Hr).
+    repeat split; lia.
   - inversion Hd as [|? ? Hd1 Hd2]; subst. cbn [app a_digits value_acc]. rewrite Hd1.
     assert (Hdig : 0 <= to_digit d <= 9) by (unfold is_digit, to_digit in *; lia).
     cbn [andb]. destruct (Z.leb_spec acc ((INT64_MAX - to_digit d) / 10)) as [Hle|Hgt].
     + assert (acc * 10 + to_digit d <= INT64_MAX).
-      { unfold INT64_MAX in *. Zify.zify. lia. }
+      { unfold INT64_MAX in *. lia. }
       apply IH; [assumption | assumption | lia].
     + assert (Hov : INT64_MAX < acc * 10 + to_digit d).
-      { unfold INT64_MAX in *. Zify.zify. lia. }
+      { unfold INT64_MAX in *. lia. }
       pose proof (value_acc_mono (acc * 10 + to_digit d) ds ltac:(lia) Hd2) as Hm.
-      assert (Hsnd : snd (a_digits (ds ++ r) acc false) = r).
-      { clear - Hd2 Hr. revert acc. induction ds as [|e ds IHd]; intros acc.
-        - cbn. destruct r as [|c r]; cbn; [reflexivity|]. cbn in Hr. rewrite Hr. reflexivity.
-        - inversion Hd2; subst. cbn [app a_digits]. rewrite H1. cbn. apply IHd. assumption. }
+      assert (Hsnd : forall a, snd (a_digits (ds ++ r) a false) = r).
+      { clear - Hd2 Hr. induction ds as [|e ds IHd]; intros a.
+        - cbn [app]. rewrite (a_digits_nodigit r a false Hr). reflexivity.
+        - inversion Hd2; subst. cbn [app a_digits]. rewrite H1. cbn [andb]. apply IHd. assumption. }
       destruct (a_digits_bad (ds ++ r) acc) as [v Ev]. rewrite Hsnd in Ev.
       exists v, false. split; [exact Ev|]. split; intros; [lia | reflexivity].
 Qed.
@@ -118,7 +121,7 @@ Proof.
   destruct (a_digits_spec ds r (to_digit d) Hd2 Hr ltac:(unfold INT64_MAX; lia)) as (x & g & E & Hok & Hbad).
   rewrite E.
   assert (Hv' : value_acc (to_digit d) ds = v).
-  { specialize (Hval 0). cbn [value_acc] in Hval. rewrite Hval. lia. }
+  { specialize (Hval 0). cbn [value_acc] in Hval. replace (0 * 10 + to_digit d) with (to_digit d) in Hval by lia. rewrite Hval. lia. }
   rewrite Hv' in *.
   assert (Hm : (d =? 45) = false) by (unfold is_digit in Hd1; lia). rewrite Hm.
   destruct (Z.leb_spec v INT64_MAX) as [Hle|Hgt].
